@@ -34,7 +34,9 @@ BLOCK["k/m/sub"] = DIR   # k: 128 files + m = 129 children; k/m: 127 files + sub
 # symbolic links to files (hashed through the link): the link's OWN name is the child name that the structure hash binds
 LINKTREE = {"a.txt": b"content of a", "d": DIR, "d/x.bin": b"content of x", "d/zz link": b"content of a", "first link": b"content of x"}
 LINKS = {"d/zz link": "../a.txt", "first link": "d/x.bin"}
-SPECIAL_TREES = [WIDE, SAMENAME, UNI]
+# names with a percent sign (whatever is printed must name them as they are)
+PCT = {"100% done": DIR, "100% done/a.txt": b"A", "rate%%25": DIR, "rate%%25/b.txt": b"B", "50%s.bin": b"S", "%(x)s": DIR, "%(x)s/c.txt": b"C"}
+SPECIAL_TREES = [WIDE, SAMENAME, UNI, PCT]
 
 
 def synthetic(ctx, fmt):
